@@ -8,9 +8,10 @@
       [EU N p f]            expectation over p independent draws uniform on {k/N : k < N} (numpy doubles: N = 2^53);
       [EUM N n p f]         the same over an n x p matrix of draws;   [bern N q] = ceil(q N)/N clipped to [0,1];
       [prod12 l] = prod (1 - 2 l_k);   [between i j l] = entries i < k <= j;   [ER], [prod12R], [sumR]  the same over R. *)
-From Coq Require Import Reals.
+From Coq Require Import Reals String.
 From PV Require Import Lib.Common Model.C01_Meiosis Model.C02_Dist Model.C02_Check Model.C11_MapFn
-  Proofs.C02_Bern Proofs.C02_Rates Proofs.C02_Uniform Proofs.C02_Haldane Proofs.C02_Check.
+  Proofs.C02_Bern Proofs.C02_Rates Proofs.C02_Uniform Proofs.C02_Haldane Proofs.C02_Check
+  Proofs.C01_Meiosis Model.C02_Loop Gen.C02_Kernel Proofs.C02_Kernel Model.C02_Session Proofs.C02_Session.
 Local Open Scope Q_scope.
 
 (** REFINEMENT — under independent grid-uniform draws the crossover indicators of the C01 gamete are independent Bernoulli
@@ -150,6 +151,111 @@ Theorem C02_check_map_sound : forall k chr gen xo, check_map k chr gen xo = true
 Proof. exact check_map_sound. Qed.
 Print Assumptions C02_check_map_sound.
 
+(** THE CURRENT SOURCE — Gen/C02_Kernel.v is regenerated from pybrops on every run (harness/translate/c02_kernel.py): the body of
+    mat_meiosis / dense_meiosis statement by statement ([k_m_*] / [k_d_*]: shape of the draws, their range, the comparison
+    [draw < xoprob], the starting phase and index, the segment copy, the phase toggle and their order, which row of the draws
+    serves which gamete), mat_dh / mat_mate and their dense_ copies, the two map functions, gdist1g's distance expressions and
+    the wiring of rprob1g / interp_xoprob / from_gmod.  The theorems below are about those generated definitions. *)
+Theorem C02_kernel_is_model :
+  (forall u p, k_m_xo u p = Qltb u p /\ k_d_xo u p = Qltb u p)
+  /\ (k_m_low = 0 /\ k_m_high = 1 /\ k_d_low = 0 /\ k_d_high = 1)
+  /\ (forall geno sel xoprob rnd, call_ok geno sel xoprob ->
+        (k_m_meiosis geno sel xoprob rnd = fst (mat_meiosis geno sel xoprob (rng0 [rnd]))
+         /\ reqs (snd (mat_meiosis geno sel xoprob (rng0 [rnd]))) = [k_m_shape (length sel) (length xoprob)])
+        /\ (k_d_meiosis geno sel xoprob rnd = fst (mat_meiosis geno sel xoprob (rng0 [rnd]))
+         /\ reqs (snd (mat_meiosis geno sel xoprob (rng0 [rnd]))) = [k_d_shape (length sel) (length xoprob)])
+        /\ k_m_dh geno sel xoprob rnd = fst (mat_dh geno sel xoprob (rng0 [rnd]))
+        /\ k_d_dh geno sel xoprob rnd = fst (mat_dh geno sel xoprob (rng0 [rnd])))
+  /\ (forall fg mg fs ms xoprob r0 r1, call_ok fg fs xoprob -> call_ok mg ms xoprob ->
+        k_m_mate fg mg fs ms xoprob r0 r1 = fst (mat_mate fg mg fs ms xoprob (rng0 [r0; r1]))
+        /\ k_d_mate fg mg fs ms xoprob r0 r1 = fst (mat_mate fg mg fs ms xoprob (rng0 [r0; r1]))).
+Proof.
+  split; [intros u p; split; [apply k_m_xo_model | apply k_d_xo_model]|].
+  split; [exact k_draw_range|].
+  split.
+  - intros geno sel xoprob rnd H. split; [now apply k_m_meiosis_eq|]. split; [now apply k_d_meiosis_eq|].
+    split; [now apply k_m_dh_eq | now apply k_d_dh_eq].
+  - intros fg mg fs ms xoprob r0 r1 Hf Hm. split; [now apply k_m_mate_eq | now apply k_d_mate_eq].
+Qed.
+Print Assumptions C02_kernel_is_model.
+
+(** under independent grid-uniform draws the GENERATED comparisons are independent Bernoulli(bern N xoprob_j) *)
+Theorem C02_kernel_draws_to_bernoulli : forall N, (0 < N)%nat -> forall xoprob f,
+  EU N (length xoprob) (fun rnd => f (cmp_row k_m_xo rnd xoprob)) == E (map (bern N) xoprob) f
+  /\ EU N (length xoprob) (fun rnd => f (cmp_row k_d_xo rnd xoprob)) == E (map (bern N) xoprob) f.
+Proof. exact kernel_draws_to_bernoulli. Qed.
+Print Assumptions C02_kernel_draws_to_bernoulli.
+
+Theorem C02_kernel_adjacent_rate : forall N xoprob j, (0 < N)%nat -> (S j < length xoprob)%nat ->
+  EU N (length xoprob) (fun rnd => ind (recomb j (S j) (cmp_row k_m_xo rnd xoprob))) == bern N (nth (S j) xoprob 0)
+  /\ EU N (length xoprob) (fun rnd => ind (recomb j (S j) (cmp_row k_d_xo rnd xoprob))) == bern N (nth (S j) xoprob 0).
+Proof. exact kernel_adjacent_rate. Qed.
+Print Assumptions C02_kernel_adjacent_rate.
+
+Theorem C02_kernel_pair_rate : forall N xoprob i j, (0 < N)%nat -> (i < j)%nat -> (j < length xoprob)%nat ->
+  EU N (length xoprob) (fun rnd => ind (recomb i j (cmp_row k_m_xo rnd xoprob))) == (1 - prod12 (between i j (map (bern N) xoprob))) / 2
+  /\ EU N (length xoprob) (fun rnd => ind (recomb i j (cmp_row k_d_xo rnd xoprob))) == (1 - prod12 (between i j (map (bern N) xoprob))) / 2.
+Proof. exact kernel_pair_rate. Qed.
+Print Assumptions C02_kernel_pair_rate.
+
+Theorem C02_kernel_segregation : forall N xoprob k j, (0 < N)%nat -> (k <= j)%nat -> (j < length xoprob)%nat -> nth k xoprob 0 = 1 # 2 ->
+  EU (2 * N) (length xoprob) (fun rnd => ind (src_at j (cmp_row k_m_xo rnd xoprob))) == 1 # 2
+  /\ EU (2 * N) (length xoprob) (fun rnd => ind (src_at j (cmp_row k_d_xo rnd xoprob))) == 1 # 2.
+Proof. exact kernel_segregation. Qed.
+Print Assumptions C02_kernel_segregation.
+
+(** the gamete the GENERATED loop makes for (i, s) reveals exactly the running parity (from copy 0) of the generated comparisons on
+    row i of the draws: starting phase, toggle, statement order, segment bounds and row index of the source are all in here *)
+Theorem C02_kernel_provenance : forall geno s i rnd xoprob,
+  length (row geno 0 s) = length xoprob -> length (row geno 1 s) = length xoprob ->
+  Forall2 (fun a0 a1 => a0 <> a1) (row geno 0 s) (row geno 1 s) ->
+  decode (row geno 0 s) (row geno 1 s) (k_m_gamete geno rnd xoprob (length xoprob) (Z.of_nat i) (Z.of_nat s))
+    = Some (src (cmp_row k_m_xo (nth i rnd []) xoprob))
+  /\ decode (row geno 0 s) (row geno 1 s) (k_d_gamete geno rnd xoprob (length xoprob) (Z.of_nat i) (Z.of_nat s))
+    = Some (src (cmp_row k_d_xo (nth i rnd []) xoprob)).
+Proof. exact kernel_provenance. Qed.
+Print Assumptions C02_kernel_provenance.
+
+Theorem C02_kernel_row_indexing : forall geno sel xoprob rnd i, (i < length sel)%nat ->
+  nth i (k_m_meiosis geno sel xoprob rnd) [] = k_m_gamete geno rnd xoprob (length xoprob) (Z.of_nat i) (Z.of_nat (nth i sel 0%nat))
+  /\ nth i (k_d_meiosis geno sel xoprob rnd) [] = k_d_gamete geno rnd xoprob (length xoprob) (Z.of_nat i) (Z.of_nat (nth i sel 0%nat)).
+Proof. exact kernel_row_indexing. Qed.
+Print Assumptions C02_kernel_row_indexing.
+
+(** the generated Haldane formula composes over adjacent intervals to itself at the summed distance *)
+Theorem C02_kernel_haldane_compose : forall ds i j, (i < j)%nat -> (j < length ds)%nat ->
+  ER (map k_haldane ds) (fun xo => indR (recomb i j xo)) = k_haldane (sumR (between i j ds)).
+Proof. exact kernel_haldane_compose. Qed.
+Print Assumptions C02_kernel_haldane_compose.
+
+(** chromosome starts: gdist1g writes +inf at the first index of every chromosome, where both generated map functions tend to 1/2 *)
+Theorem C02_kernel_start_half : forall eps : R, (0 < eps)%R ->
+  k_s_start_inf = true /\ k_e_start_inf = true /\ (forall st sp, k_s_start_ix st sp = st /\ k_e_start_ix st sp = st)
+  /\ exists D, (0 <= D)%R /\ forall d, (D <= d)%R ->
+       (1 / 2 - eps < k_haldane d < 1 / 2)%R /\ (1 / 2 - eps < k_kosambi d < 1 / 2)%R.
+Proof. exact kernel_start_half. Qed.
+Print Assumptions C02_kernel_start_half.
+
+(** the other markers: gap = this position - previous position (slices offset by exactly one), and a [true] map check means the
+    stored probability is the GENERATED map function of the GENERATED gap (within 2^-45 (1+|x|)), 1/2 exactly at chromosome starts *)
+Theorem C02_kernel_map_assignment : forall chr gen xo,
+  (forall st sp, k_s_gap_slices st sp = ((st + 1, sp), (st, sp - 1))%Z /\ k_e_gap_slices st sp = ((st + 1, sp), (st, sp - 1))%Z)
+  /\ (check_map Haldane chr gen xo = true -> xo_map_spec_k k_haldane k_s_gap None chr gen xo /\ xo_map_spec_k k_haldane k_e_gap None chr gen xo)
+  /\ (check_map Kosambi chr gen xo = true -> xo_map_spec_k k_kosambi k_s_gap None chr gen xo /\ xo_map_spec_k k_kosambi k_e_gap None chr gen xo).
+Proof. intros chr gen xo. split; [exact k_gap_slices_model | exact (kernel_check_map_sound chr gen xo)]. Qed.
+Print Assumptions C02_kernel_map_assignment.
+
+(** wiring: rprob1g = mapfn o gdist1g on (chromosomes, genetic positions); interp_xoprob feeds the freshly interpolated positions;
+    the expected-maximum-breeding-value matrix makes doubled haploids of taxon i only, with the matrix's own xoprob *)
+Theorem C02_kernel_wiring :
+  (forall (C G D X : Type) (mf : D -> X) (gd : C -> G -> D) c g, k_h_rprob1g mf gd c g = mf (gd c g) /\ k_k_rprob1g mf gd c g = mf (gd c g))
+  /\ (forall (M C P G X : Type) (ig : M -> C -> P -> G) (rp : M -> C -> G -> X) m c p,
+        k_interp_xoprob ig rp m c p = (ig m c p, rp m c (ig m c p)))
+  /\ k_embv_dh_call = ["pgmat.mat"; "numpy.repeat(i, nprogeny[i])"; "pgmat.vrnt_xoprob"; "global_prng"]%string
+  /\ (forall i n : nat, map Z.to_nat (k_embv_sel (Z.of_nat i) (Z.of_nat n)) = repeat i n).
+Proof. exact kernel_wiring. Qed.
+Print Assumptions C02_kernel_wiring.
+
 (** non-vacuity: a three-marker vector with a chromosome start in the middle meets the hypotheses; the rates are the
     expected numbers; a distinct-coded parent meets the hypotheses of the observable *)
 Example C02_hyps_satisfiable :
@@ -164,3 +270,60 @@ Proof.
   cbv zeta. repeat split; try (vm_compute; reflexivity); try (cbn; lia); try (vm_compute; discriminate).
   - vm_compute. repeat constructor; discriminate.
 Qed.
+
+(** non-vacuity for the kernel theorems: a two-individual, three-marker call meets [call_ok] and the distinct-copies hypothesis; the
+    generated programme computes the expected gametes on it (individual 1 then 0; crossovers where the draw is strictly below) *)
+Example C02_kernel_hyps_satisfiable :
+  let geno := [[[0; 0; 0]; [2; 2; 2]]; [[1; 1; 1]; [3; 3; 3]]]%Z in
+  let xoprob := [1 # 2; 1 # 4; 1 # 2] in
+  let rnd := [[1 # 4; 1 # 4; 3 # 4]; [1 # 2; 0; 1 # 8]] in
+  call_ok geno [1; 0]%nat xoprob
+  /\ Forall2 (fun a0 a1 => a0 <> a1) (row geno 0 1) (row geno 1 1)
+  /\ k_m_meiosis geno [1; 0]%nat xoprob rnd = [[3; 3; 3]; [0; 1; 0]]%Z
+  /\ k_d_mate geno geno [1]%nat [0]%nat xoprob [[1 # 4; 1 # 4; 3 # 4]] [[1 # 2; 0; 1 # 8]] = [[[3; 3; 3]]; [[0; 1; 0]]]%Z
+  /\ (0 < 1)%R.
+Proof.
+  cbv zeta. split; [|split; [|split; [|split]]].
+  - unfold call_ok, rows_ok. cbn. repeat split; repeat constructor.
+  - vm_compute. repeat constructor; discriminate.
+  - vm_compute. reflexivity.
+  - vm_compute. reflexivity.
+  - exact Rlt_0_1.
+Qed.
+
+(** SESSIONS — several meiosis calls on one generator (one protocol object reused, crossover probabilities or parents replaced in
+    between): the k-th result is the meiosis of the state handed to call k on the k-th matrix of draws; nothing of the earlier
+    calls survives.  [run_session] folds C01's [mat_meiosis] over the calls. *)
+Theorem C02_session_call_independent : forall cs draws k, (k < length cs)%nat ->
+  nth k (run_session cs (rng0 draws)) [] =
+  meiosis_rows (c_geno (nth k cs call0)) (c_sel (nth k cs call0)) (nth k draws []) (c_xoprob (nth k cs call0)).
+Proof. exact session_call_independent. Qed.
+Print Assumptions C02_session_call_independent.
+
+Theorem C02_session_no_stale_state : forall cs cs' draws draws' k, (k < length cs)%nat -> (k < length cs')%nat ->
+  nth k cs call0 = nth k cs' call0 -> nth k draws [] = nth k draws' [] ->
+  nth k (run_session cs (rng0 draws)) [] = nth k (run_session cs' (rng0 draws')) [].
+Proof. exact session_no_stale_state. Qed.
+Print Assumptions C02_session_no_stale_state.
+
+(** RANGE — stored probabilities outside [0,1] act as never / always, the effective probability is monotone in the stored one, and
+    a stored value of at least one half keeps at least one half: no clipping anywhere below 1 *)
+Theorem C02_bern_outside : forall N p, (0 < N)%nat -> (1 <= p -> bern N p == 1) /\ (p <= 0 -> bern N p == 0).
+Proof. exact bern_outside. Qed.
+Print Assumptions C02_bern_outside.
+
+Theorem C02_bern_mono : forall N p q, (0 < N)%nat -> p <= q -> bern N p <= bern N q.
+Proof. exact bern_mono. Qed.
+Print Assumptions C02_bern_mono.
+
+Theorem C02_bern_above_half : forall N p, (0 < N)%nat -> 1 # 2 <= p -> 1 # 2 <= bern (2 * N) p.
+Proof. exact bern_above_half. Qed.
+Print Assumptions C02_bern_above_half.
+
+Example C02_session_hyps_satisfiable :
+  let g := [[[0; 0]]; [[1; 1]]]%Z in
+  let cs := [mkCall g [0]%nat [1 # 2; 0]; mkCall g [0; 0]%nat [0; 1]] in
+  let draws := [[[1 # 4; 0]]; [[0; 3 # 4]; [1 # 2; 1 # 2]]] in
+  (1 < length cs)%nat /\ nth 1 (run_session cs (rng0 draws)) [] = [[0; 1]; [0; 1]]%Z
+  /\ (0 < 4)%nat /\ 1 <= 3 # 2 /\ bern 4 (3 # 2) == 1 /\ bern 4 (3 # 4) == 3 # 4 /\ 1 # 2 <= 3 # 4.
+Proof. cbv zeta. repeat split; try (vm_compute; reflexivity); try (cbn; lia); try (vm_compute; discriminate). Qed.
